@@ -194,6 +194,18 @@ func c06Gen(tier string, seed int64) []core.Case {
 			cs = append(cs, core.Case{ID: id, Class: id, Kind: "theta", P: sc.P(), Cost: sc.cost})
 		}
 	}
+	// W1, parameters: a participant whose Paillier / ring-Pedersen moduli are larger than the protocol's, with valid proofs
+	for _, sc := range faultSessions(tier) {
+		if sc.proto != "ecdsa-keygen" && sc.proto != "ecdsa-resharing" {
+			continue
+		}
+		for _, weak := range []string{"large-ntilde", "large-paillier"} {
+			p := sc.P()
+			p["weak"], p["fpos"] = weak, "mid"
+			id := fmt.Sprintf("W1/%s/oversized-parameters:%s", sc.proto, weak)
+			cs = append(cs, core.Case{ID: id, Class: id, Kind: "weak", P: p, Cost: sc.cost + 6})
+		}
+	}
 	// W2
 	for _, sc := range faultSessions(tier) {
 		for _, sp := range sim.Specs[sc.proto] {
@@ -201,6 +213,19 @@ func c06Gen(tier string, seed int64) []core.Case {
 			p["target"] = sp.Short
 			p["mutants"] = tierN(tier, 60, 600)
 			id := fmt.Sprintf("W2/%s/%s", sc.proto, sp.Short)
+			cs = append(cs, core.Case{ID: id, Class: id, Kind: "w2", P: p, Cost: sc.cost + 1})
+		}
+	}
+	// W2 on committees of unequal size (a sender index admissible for one committee is out of range for the other one's stores)
+	for _, sc := range []sessCfg{
+		{"ecdsa-resharing", 3, 1, []int{0, 2}, 3, 1, "seeded", 7}, {"ecdsa-resharing", 5, 2, []int{0, 1, 2, 3}, 2, 1, "vendored", 6},
+		{"eddsa-resharing", 3, 1, []int{0, 1, 2}, 2, 1, "seeded", 0.6},
+	} {
+		for _, sp := range sim.Specs[sc.proto] {
+			p := sc.P()
+			p["target"] = sp.Short
+			p["mutants"] = 14
+			id := fmt.Sprintf("W2/%s/old=%d,new=%d/%s", sc.proto, len(sc.sel), sc.nn, sp.Short)
 			cs = append(cs, core.Case{ID: id, Class: id, Kind: "w2", P: p, Cost: sc.cost + 1})
 		}
 	}
@@ -275,6 +300,13 @@ func c06Run(c core.Case, env *core.Env) core.Result {
 			return r
 		}
 		c06After(&r, fr.w, "W1:"+s.Proto+"/"+f.Type+"."+f.Field)
+	case "weak":
+		fr, err := runWeakParams(s, c.P.Str("fpos"), c.P.Str("weak"))
+		if err != nil {
+			r.Inconcl("cannot run: %v", err)
+			return r
+		}
+		c06After(&r, fr.w, "W1:"+s.Proto+"/oversized-parameters:"+c.P.Str("weak"))
 	case "opens":
 		c06Opens(&r, s, c.P)
 	case "theta":
@@ -549,6 +581,22 @@ func c06Wire(r *core.Result, s *session, target string, mutants int, env *core.E
 			}
 			r.Count("wire_mutants_survived", 1)
 			r.AddSet("mutant_kinds", strings.SplitN(what, ":", 2)[0])
+		}
+		// every sender index from -1 to one past the larger committee, with the genuine bytes and both channel kinds
+		for ix := -1; ix <= len(w.Nodes)+1; ix++ {
+			for _, bc := range []bool{ev.Bcast, !ev.Bcast} {
+				cp := *ev.FromPID
+				cp.Index = ix
+				if ix == ev.FromPID.Index && bc == ev.Bcast {
+					continue // that is the genuine delivery about to happen
+				}
+				if p, msg, st := guard(func() { n.Party.UpdateFromBytes(ev.Wire, &cp, bc) }); p {
+					r.Fail("W2:panic:"+core.TopLibFrame(st), "UpdateFromBytes panicked on the genuine %s of %s handed to %s (round %d) with sender index %d, broadcast=%v: %s", target, ev.Msg.Key(), n.Name, roundOf(n), ix, bc, msg)
+					r.Witness = fmt.Sprintf("sender index %d broadcast=%v\nwire: %x\n\n%s", ix, bc, ev.Wire, st)
+					return
+				}
+				r.Count("sender_indices_survived", 1)
+			}
 		}
 	})
 	w.Run(sim.StartsThen(sim.FIFO), nil)
